@@ -758,7 +758,11 @@ def render_dml_query(statement, dialect):
         def render_literal_value(self, value, type_):
 
             if isinstance(value, (str, dt.date, dt.datetime, dt.timedelta)):
-                return "'{}'".format(str(value).replace("'", "''"))
+                value = str(value).replace("'", "''")
+                if dialect.name == 'mysql':
+                    # backslash is an escape character inside mysql string literals
+                    value = value.replace('\\', '\\\\')
+                return "'{}'".format(value)
 
             return super(LiteralCompiler, self).render_literal_value(value, type_)
 
@@ -770,7 +774,11 @@ def render_ddl_query(statement, dialect):
 
         def render_literal_value(self, value, type_):
             if isinstance(value, (str, dt.date, dt.datetime, dt.timedelta)):
-                return "'{}'".format(str(value).replace("'", "''"))
+                value = str(value).replace("'", "''")
+                if dialect.name == 'mysql':
+                    # backslash is an escape character inside mysql string literals
+                    value = value.replace('\\', '\\\\')
+                return "'{}'".format(value)
 
             return super(LiteralCompiler, self).render_literal_value(value, type_)
 
